@@ -159,7 +159,7 @@ impl Property for C18 {
         }
     }
     fn rule(&self) -> &'static str {
-        "generated workspaces (virtual or rooted, 1..4 members, lib / bin / explicit [[bin]] / example / test / bench / build-script targets, package and per-target editions incl. the default 2015, path dependencies inside the workspace and to packages outside it, transitively) x selection (current directory, -p names, --all, an unknown -p, a bad --manifest-path) x working directory (root or a member) x pass-through arguments, --check and --message-format; the real cargo-fmt runs with $RUSTFMT pointing at a recording stand-in whose k-th invocation fails on request; oracle (model computed from the generated manifests): the union of the files passed equals the root source files of all targets of the selected packages, every file is passed once, every invocation carries the edition of its targets and the pass-through arguments in order, cargo-fmt fails iff a stand-in invocation failed, and an unknown package or unusable manifest is an error before any invocation; non-trivial = at least two editions among the selected targets and a path dependency or explicit target; distinct by case content"
+        "generated workspaces (virtual or rooted, 1..4 members, lib / bin / explicit [[bin]] / example / test / bench / build-script targets, package and per-target editions incl. the default 2015, path dependencies inside the workspace and to packages outside it, transitively) x selection (current directory, -p names, --all, --manifest-path of a member spelled absolutely / relatively with `..` / with `./` / through a symlink, an unknown -p, a bad --manifest-path) x working directory (root or a member) x pass-through arguments, --check and --message-format; the real cargo-fmt runs with $RUSTFMT pointing at a recording stand-in whose k-th invocation fails on request; oracle (model computed from the generated manifests): the union of the files passed equals the root source files of all targets of the selected packages, every file is passed once, every invocation carries the edition of its targets and the pass-through arguments in order, cargo-fmt fails iff a stand-in invocation failed, and an unknown package or unusable manifest is an error before any invocation; non-trivial = at least two editions among the selected targets and a path dependency or explicit target; distinct by case content"
     }
     fn assumptions(&self) -> Vec<&'static str> {
         vec![
@@ -204,7 +204,13 @@ impl Property for C18 {
                 packages[0].deps.push(d);
             }
         }
-        let selection = match c.weighted(&[4, 3, 3, 1, 1]) {
+        let selection = match c.weighted(&[4, 3, 3, 1, 1, 3]) {
+            5 => {
+                // --manifest-path naming a member's manifest, spelled in several valid ways
+                let members: Vec<&Package> = packages.iter().filter(|p| p.member).collect();
+                let target = members[c.below(members.len())].dir.clone();
+                json!({"kind": "manifest", "target": target, "spelling": *c.pick(&["absolute", "relative", "dot-relative", "via-symlink"])})
+            }
             0 => json!({"kind": "current"}),
             1 => {
                 let members: Vec<&Package> = packages.iter().filter(|p| p.member).collect();
@@ -271,6 +277,24 @@ impl Property for C18 {
             "bad-manifest" => {
                 cmd.arg("--manifest-path").arg(root.join("missing/Cargo.toml"));
             }
+            "manifest" => {
+                let target = sel["target"].as_str().unwrap_or("");
+                let tdir = if target.is_empty() { root.clone() } else { root.join(target) };
+                // relative spelling from the working directory: up to the workspace root, then down
+                let ups = if cwd_rel.is_empty() { 0 } else { cwd_rel.split('/').count() };
+                let rel = format!("{}{}{}Cargo.toml", "../".repeat(ups), target, if target.is_empty() { "" } else { "/" });
+                let arg = match sel["spelling"].as_str().unwrap_or("absolute") {
+                    "relative" => rel,
+                    "dot-relative" => format!("./{rel}"),
+                    "via-symlink" => {
+                        let link = base.join("link-to-package");
+                        let _ = std::os::unix::fs::symlink(&tdir, &link);
+                        link.join("Cargo.toml").to_string_lossy().into_owned()
+                    }
+                    _ => tdir.join("Cargo.toml").to_string_lossy().into_owned(),
+                };
+                cmd.arg("--manifest-path").arg(arg);
+            }
             _ => {}
         }
         let flag = case["flag"].as_str().unwrap_or("");
@@ -316,6 +340,15 @@ impl Property for C18 {
         let by_name: BTreeMap<&str, &Package> = ws.packages.iter().map(|p| (p.name.as_str(), p)).collect();
         let selected: Option<Vec<&Package>> = match kind {
             "unknown-package" | "bad-manifest" => None,
+            "manifest" => {
+                let target = sel["target"].as_str().unwrap_or("");
+                if target.is_empty() && !ws.virtual_root {
+                    o.labels.push("rooted-root-current:not-judged".into());
+                    return o;
+                }
+                o.labels.push(format!("manifest-path:{}", sel["spelling"].as_str().unwrap_or("")));
+                Some(ws.packages.iter().filter(|p| p.dir == target).collect())
+            }
             "packages" => Some(sel["names"].as_array().into_iter().flatten().filter_map(|n| by_name.get(n.as_str().unwrap_or("")).copied()).collect()),
             "all" => {
                 // members plus every package reachable through path dependencies
